@@ -67,6 +67,7 @@ def model_gram(cases, tag):
 
 def check(ctx):
     rng = np.random.default_rng(ctx.seed)
+    rotational_option(ctx, np.random.default_rng(ctx.seed + 61))
     from bigcell import check_bigcells
     check_bigcells(ctx, "C03", np.random.default_rng(ctx.seed + 2002))   # supercells of 36-216 atoms
     from o1 import check_o1
@@ -190,3 +191,42 @@ def check(ctx):
                     if r > 1e-8:
                         ctx.fail("oracle", f"C03/oracle/fit/order{k}", f"fitted fc{k} of {sc['name']} (orders {orders}) violates the sum rule at position {pos} ({r:.2e})",
                                  replay={"cell": sc["name"], "orders": orders, "order": k}, has_input=True)
+
+
+def rotational_option(ctx, rng):
+    """FCBasisSetO2.run(rotational_sum_rules=True) adds rotational-invariance conditions; the translational sum rule must hold
+    with the option as well (basis vectors and an FCSolverO2 fit)."""
+    from symfc.basis_sets import FCBasisSetO2
+    from symfc.solvers import FCSolverO2
+
+    for cname, diag in [("wurtzite", (1, 1, 1)), ("mono_P", (1, 1, 1)), ("hcp", (1, 1, 1))] + ([] if ctx.quick else [("nacl_prim", (2, 1, 1)), ("tri2_P1", (2, 1, 1)), ("hcp", (2, 2, 1)), ("mono_P", (2, 1, 1))]):
+        sc = make_supercell(base_cells()[cname], diag, rng=rng, shuffle=True)
+        N = len(sc["numbers"])
+        at = atoms_of(sc)
+        rep = {"cell": sc["name"], "lattice": sc["lattice"].tolist(), "positions": sc["positions"].tolist(), "numbers": [int(x) for x in sc["numbers"]], "order": 2, "rotational_sum_rules": True}
+        try:
+            b = FCBasisSetO2(at).run(rotational_sum_rules=True)
+        except (ValueError, IndexError, np.linalg.LinAlgError):
+            # the option itself fails loudly on some cells of the unchanged tree (e.g. a P1 cell without lattice translations:
+            # ValueError in the rotational projector); C03 speaks about returned force constants, so this is only counted
+            ctx.count("rotational-option-raised")
+            continue
+        nb = b.basis_set.shape[1]
+        ctx.case({"cell": sc["name"], "rotational_sum_rules": True, "n_basis": int(nb)}, nontrivial=nb > 0)
+        ctx.count("rotational-option")
+        if nb == 0:
+            continue
+        T = full_basis_tensors(b, 2, N)
+        worst = max([sum_rule_residual(v, 2)[0] for v in T] + [sum_rule_residual(np.tensordot(rng.normal(size=nb), T, axes=(0, 0)), 2)[0]])
+        if worst > 1e-8:
+            ctx.fail("oracle", "C03/oracle/rotational-option", f"{sc['name']}: with rotational_sum_rules=True an expanded order-2 basis vector violates the translational sum rule ({worst:.2e})", replay=rep, has_input=True)
+            continue
+        n = 3 * int(np.ceil(nb / (3 * N))) + 4
+        d, f = rng.normal(size=(n, N, 3)) * 0.05, rng.normal(size=(n, N, 3))
+        try:
+            fc = np.asarray(FCSolverO2(b).solve(d, f).full_fc)
+        except np.linalg.LinAlgError:
+            continue
+        r, pos = sum_rule_residual(fc, 2)
+        if r > 1e-8:
+            ctx.fail("oracle", "C03/oracle/rotational-option", f"{sc['name']}: FCSolverO2 fit on the rotational_sum_rules=True basis violates the sum rule at position {pos} ({r:.2e})", replay=rep, has_input=True)
